@@ -1656,7 +1656,7 @@ impl FunctionCompiler<'_> {
                                 self.tys[self.loc].meta_ty(ty).unwrap()
                             }
                             hir::ArmVariant::Shorthand(name) => {
-                                let Ty::Enum { ref variants, .. } = *sum_ty else {
+                                let Ty::Enum { ref variants, .. } = *sum_ty.absolute_ty() else {
                                     unreachable!()
                                 };
 
